@@ -630,6 +630,32 @@ def suffix_bytes_idiom(prog, ib, buf):
         if x.k == "bin" and x.a[0] in ("Sub", "SubWithOverflow"):
             sub = x
     if sub is None:
+        # the same cut found by position: `if let Some((at, _)) = buf.char_indices().rev().take(n).last() { buf.truncate(at) }` — the byte index
+        # where the n-th character from the end begins (a character boundary of this very string; with fewer than n characters it is 0, with
+        # none taken nothing is cut)
+        nl = new_len
+        while nl.k in ("ref", "deref"):
+            nl = nl.a[0]
+        if nl.k == "field" and str(nl.a[1]) in ("0",) or (nl.k == "field" and nl.a[1] == 0):
+            src = strip_refs(nl.a[0])
+            if src.k == "field" and str(src.a[1]) == "0":
+                src = strip_refs(src.a[0])
+            if src.k == "downcast":
+                src = strip_refs(src.a[0])
+            if src.k == "call" and src.a[0].endswith("Iterator>::last") or (src.k == "call" and src.a[0].endswith("Iterator::last")):
+                names = []
+                x = strip_refs(src.a[1][0])
+                itx = x
+                while x.k == "call":
+                    names.append(x.a[0].split("::")[-1])
+                    x = strip_refs(x.a[1][0])
+                if names[:3] == ["take", "rev", "char_indices"] and any(self_path(y) == (buf,) for y in itx.walk()):
+                    take_local = None
+                    for (bb2, t2) in ib.calls():
+                        if callee_name(t2).endswith("Iterator::take") and "Rev<std::str::CharIndices" in t2["args"][0]["place"]["ty"]:
+                            take_local = operand_local(ib, t2["args"][1])
+                    if take_local is not None:
+                        return True, "", take_local
         return False, "new length is not `len − n_bytes`", None
     l, r = strip_refs(sub.a[1]), strip_refs(sub.a[2])
     if not (l.k == "call" and l.a[0].endswith("String::len") and self_path(l.a[1][0]) == (buf,)):
